@@ -581,7 +581,7 @@ theorem processElement_close (c : Ctx) (s P : Nat) (r : Range) (o1 o2 : Nat) (n 
     (rest : List Bytes) (pn : NodeData) (a : Option Nat) (sp : Span) (b nss : Range)
     (htag : c.tagName.name ≠ [])
     (hns1 : c.nsStartIdx = s) (hns2 : c.doc.ns.treeOrder.size = s)
-    (hcur : c.curAttrs = []) (hfl : c.entityFloor = 0) (hpp : c.parentPrefixes = [] :: rest)
+    (hcur : c.curAttrs = []) (hfl : c.entityFloor ≤ rest.length) (hpp : c.parentPrefixes = [] :: rest)
     (hpn : c.doc.nodes[c.parentId]? = some pn) (hkind : pn.kind = .element a sp b nss)
     (hsp : sp.bytes = n) (hnss : nss = (s, s)) (hpar : pn.parent = some P) :
     ∃ c', processElement txt c (.close ⟨o1, []⟩ ⟨o2, n⟩) r = .ok c' ∧
@@ -602,21 +602,22 @@ theorem processElement_close (c : Ctx) (s P : Nat) (r : Range) (o1 o2 : Nat) (n 
   rw [resolveNamespaces_flat c s pn hpn hg hns1 hns2]
   simp only [Res.bind_ok]
   unfold resolveAttributes
-  have hlen : ¬ (([] : Bytes) :: rest).length ≤ 0 := by simp
+  have hlen : ¬ (([] : Bytes) :: rest).length ≤ c.entityFloor := by
+    simp only [List.length_cons]; omega
   have h1 : (([] : Bytes) != []) = false := by decide
   have h2 : (n != sp.bytes) = false := by rw [hsp]; simp
-  simp only [hcur, List.isEmpty_nil, if_true, Res.bind_ok, hpp, hfl, hlen, if_false, Ctx.nodeAt, hpn,
+  simp only [hcur, List.isEmpty_nil, if_true, Res.bind_ok, hpp, hlen, if_false, Ctx.nodeAt, hpn,
     Ctx.setNode]
   by_cases hpos : c.positions = true
   · simp only [hpos, if_true, hkind, hpar, h1, h2, Bool.or_self, Bool.false_eq_true, if_false,
       Res.pure_eq]
     refine ⟨_, rfl, ?_, ?_, rfl, rfl⟩
-    · simp [core, hcur, hfl]
+    · simp [core, hcur]
     · unfold kps; exact toList_set_kp _ _ pn _ hpn (by simp [kp, hkind, hpar])
   · simp only [hpos, if_false, hkind, hpar, h1, h2, Bool.or_self, Bool.false_eq_true,
       Res.pure_eq]
     refine ⟨_, rfl, ?_, ?_, rfl, rfl⟩
-    · simp [core, hcur, hfl]
+    · simp [core, hcur]
     · unfold kps; exact toList_set_kp _ _ pn _ hpn rfl
 
 theorem step_close (c : Ctx) (s P : Nat) (r : Range) (o1 o2 : Nat) (n : Bytes)
@@ -624,7 +625,7 @@ theorem step_close (c : Ctx) (s P : Nat) (r : Range) (o1 o2 : Nat) (n : Bytes)
     (hat : c.afterText.length ≤ 1)
     (htag : c.tagName.name ≠ [])
     (hns1 : c.nsStartIdx = s) (hns2 : c.doc.ns.treeOrder.size = s)
-    (hcur : c.curAttrs = []) (hfl : c.entityFloor = 0) (hpp : c.parentPrefixes = [] :: rest)
+    (hcur : c.curAttrs = []) (hfl : c.entityFloor ≤ rest.length) (hpp : c.parentPrefixes = [] :: rest)
     (hpn : c.doc.nodes[c.parentId]? = some pn) (hkind : pn.kind = .element a sp b nss)
     (hsp : sp.bytes = n) (hnss : nss = (s, s)) (hpar : pn.parent = some P) :
     ∃ c', tokenStep T txt lower (.elementEnd (.close ⟨o1, []⟩ ⟨o2, n⟩) r) c = .ok c' ∧
@@ -696,7 +697,7 @@ structure Inv (s : Nat) (c : Ctx) : Prop where
   cur : c.curAttrs = []
   ns1 : c.nsStartIdx = s
   ns2 : c.doc.ns.treeOrder.size = s
-  floor : c.entityFloor = 0
+  floor : c.entityFloor ≤ c.parentPrefixes.length
   at1 : c.afterText.length ≤ 1
   good : ∀ x ∈ kps c, good s c.doc.attrs.size x.1
 
@@ -704,6 +705,7 @@ structure Built (s : Nat) (c c' : Ctx) (N A : Nat) (L : List (Option Nat × XKin
   inv : Inv s c'
   pid : c'.parentId = c.parentId
   pp : c'.parentPrefixes = c.parentPrefixes
+  fl : c'.entityFloor = c.entityFloor
   lim : c'.nodesLimit = c.nodesLimit
   tag : c.tagName.name ≠ [] → c'.tagName.name ≠ []
   size : c'.doc.nodes.size = c.doc.nodes.size + N
@@ -717,14 +719,14 @@ theorem kps_getElem? (c : Ctx) (i : Nat) : (kps c)[i]? = (c.doc.nodes[i]?).map k
 theorem kps_length (c : Ctx) : (kps c).length = c.doc.nodes.size := by simp [kps]
 
 theorem Built.refl {s : Nat} {c : Ctx} (h : Inv s c) : Built s c c 0 0 [] :=
-  ⟨h, rfl, rfl, rfl, id, rfl, rfl, [], [], by simp, by simp, rfl⟩
+  ⟨h, rfl, rfl, rfl, rfl, id, rfl, rfl, [], [], by simp, by simp, rfl⟩
 
 theorem Built.trans {s : Nat} {c c1 c2 : Ctx} {N1 N2 A1 A2 : Nat} {L1 L2 : List (Option Nat × XKind)}
     (h1 : Built s c c1 N1 A1 L1) (h2 : Built s c1 c2 N2 A2 L2) :
     Built s c c2 (N1 + N2) (A1 + A2) (L1 ++ L2) := by
   obtain ⟨K1, m1, hk1, ha1, hv1⟩ := h1.grow
   obtain ⟨K2, m2, hk2, ha2, hv2⟩ := h2.grow
-  refine ⟨h2.inv, h2.pid.trans h1.pid, h2.pp.trans h1.pp, h2.lim.trans h1.lim,
+  refine ⟨h2.inv, h2.pid.trans h1.pid, h2.pp.trans h1.pp, h2.fl.trans h1.fl, h2.lim.trans h1.lim,
     fun h => h2.tag (h1.tag h), by rw [h2.size, h1.size]; omega, by rw [h2.asize, h1.asize]; omega,
     K1 ++ K2, m1 ++ m2, by rw [hk2, hk1, List.append_assoc], by rw [ha2, ha1, List.append_assoc], ?_⟩
   rw [List.map_append, List.map_append, hv2, ← hv1]
@@ -778,8 +780,8 @@ theorem built_leaf {s : Nat} {c c' : Ctx} {k : Kind} {X : List Str} {v : Option 
     have := congrArg List.length hk
     simpa [kps_length] using this
   refine ⟨⟨hb', by rw [e1]; exact hi.lim, by rw [e2]; exact hi.cur, by rw [e3]; exact hi.ns1,
-      by rw [hns]; exact hi.ns2, by rw [e4]; exact hi.floor, by rw [e5]; exact hX, ?_⟩,
-    e6, e7, e1, by rw [e8]; exact id, hsz, by rw [ha]; rfl, [(k, some c.parentId)], [], hk,
+      by rw [hns]; exact hi.ns2, by rw [e4, e7]; exact hi.floor, by rw [e5]; exact hX, ?_⟩,
+    e6, e7, e4, e1, by rw [e8]; exact id, hsz, by rw [ha]; rfl, [(k, some c.parentId)], [], hk,
     by rw [ha]; simp, by simp [hv]⟩
   intro x hx
   rw [hk] at hx
@@ -918,9 +920,10 @@ theorem build_elem (s p : Nat) (c : Ctx) (n : Bytes) (as : List (Bytes × Bytes)
     have : c3.parentPrefixes = [] :: c2.parentPrefixes := congrArg Core.parentPrefixes hc3
     rw [this, pp2]
   have tag3 : c3.tagName = c2.tagName := congrArg Core.tagName hc3
+  have fl3 : c3.entityFloor = c.entityFloor := (congrArg Core.entityFloor hc3).trans fl2
   have hi3 : Inv s c3 := by
     refine ⟨hb3, by rw [lim3]; exact hi.lim, congrArg Core.curAttrs hc3, ?_, by rw [hns3, d2]; exact hi.ns2,
-      (congrArg Core.entityFloor hc3).trans (fl2.trans hi.floor), by rw [at3]; simp, ?_⟩
+      by rw [fl3, pp3]; exact Nat.le_succ_of_le hi.floor, by rw [at3]; simp, ?_⟩
     · have : c3.nsStartIdx = c2.doc.ns.treeOrder.size := congrArg Core.nsStartIdx hc3
       rw [this, d2]; exact hi.ns2
     · intro x hx
@@ -951,19 +954,23 @@ theorem build_elem (s p : Nat) (c : Ctx) (n : Bytes) (as : List (Bytes × Bytes)
   -- end tag
   obtain ⟨c5, hs5, hc5, hk5, ha5, hns5⟩ :=
     step_close T txt lower c4 s c.parentId (p3, p3 + 3 + n.length) (p3 + 2) (p3 + 2) n c.parentPrefixes
-      pn none ⟨p + 1, n⟩ rg (s, s) hi4.at1 tag4 hi4.ns1 hi4.ns2 hi4.cur hi4.floor (hB4.pp.trans pp3)
+      pn none ⟨p + 1, n⟩ rg (s, s) hi4.at1 tag4 hi4.ns1 hi4.ns2 hi4.cur
+      (by rw [hB4.fl, fl3]; exact hi.floor) (hB4.pp.trans pp3)
       (by rw [pid4]; exact hpn) hkp.1 rfl rfl (by rw [hkp.2, pid2])
   have hb5 := binv_tokenStep T txt lower hlower _ c4 c5 hi4.binv hs5
   have at5 : c5.afterText = [] := congrArg Core.afterText hc5
   have lim5 : c5.nodesLimit = c.nodesLimit := (congrArg Core.nodesLimit hc5).trans (hB4.lim.trans lim3)
   have tag5 : c5.tagName = c4.tagName := congrArg Core.tagName hc5
+  have fl5 : c5.entityFloor = c.entityFloor :=
+    (congrArg Core.entityFloor hc5).trans (hB4.fl.trans fl3)
+  have pp5 : c5.parentPrefixes = c.parentPrefixes := congrArg Core.parentPrefixes hc5
   have hi5 : Inv s c5 := by
     refine ⟨hb5, by rw [lim5]; exact hi.lim, (congrArg Core.curAttrs hc5).trans hi4.cur, ?_,
-      by rw [hns5]; exact hi4.ns2, (congrArg Core.entityFloor hc5).trans hi4.floor,
+      by rw [hns5]; exact hi4.ns2, by rw [fl5, pp5]; exact hi.floor,
       by rw [at5]; simp, by rw [hk5, ha5]; exact hi4.good⟩
     have : c5.nsStartIdx = c4.doc.ns.treeOrder.size := congrArg Core.nsStartIdx hc5
     rw [this]; exact hi4.ns2
-  refine ⟨c5, ?_, ⟨hi5, congrArg Core.parentId hc5, congrArg Core.parentPrefixes hc5, lim5,
+  refine ⟨c5, ?_, ⟨hi5, congrArg Core.parentId hc5, pp5, fl5, lim5,
     fun _ => by rw [tag5]; exact tag4, ?_, ?_, ?_⟩, at5⟩
   · rw [htoks]
     refine feed_append_ok _ _ c c4 c5 ?_ (by rw [feed_cons_ok hs5]; rfl)
@@ -1124,7 +1131,8 @@ theorem parse_of_toks (T : Tables) (txt : Bytes) (opt : Opt)
   obtain ⟨c0, h0, l0, ns0, ts0, cur0, fl0, at0, pid0, pp0, attrs0, k0, sz0⟩ := initCtx_ok txt opt
   have hb0 : BInv c0 := binv_init txt opt c0 h0
   have hi0 : Inv 1 c0 := by
-    refine ⟨hb0, by rw [l0]; exact hl32, cur0, ns0, ts0, fl0, by rw [at0]; simp, ?_⟩
+    refine ⟨hb0, by rw [l0]; exact hl32, cur0, ns0, ts0, by rw [fl0]; exact Nat.zero_le _,
+      by rw [at0]; simp, ?_⟩
     intro x hx
     rw [k0] at hx
     simp only [List.mem_singleton] at hx
